@@ -926,7 +926,7 @@ Definition minit (progs : list (list op)) : machine :=
 (* ================================================================== *)
 (* wire                                                               *)
 (* ================================================================== *)
-(* A case:  (kind probe fresh hist adv aprobe)
+(* A case:  (kind probe fresh hist adv aprobe act)
      kind   0 = the probe is a JSON ioCore.Write of a generated encoder case (the case text is kept
                 for the replay; rendering such lines is C01's subject), 1 = a console / Logger probe
      probe  the encoder case, resp. a label
@@ -937,6 +937,10 @@ Definition minit (progs : list (list op)) : machine :=
             c reflected failing, d namespaces, e error-group size, f flags/depth
      adv    the adversary's choices for the model run
      aprobe the observed probe, abstracted the same way
+     act    (name n): what the probe's sinks did on OTHER loggers while they were inside Write
+            (harness/c08.go, active sinks; n = 0: nothing).  Kept for the replay; for the model that
+            activity is already part of hist (its operations are appended there), and the fresh
+            bytes are always those of the probe with passive sinks
    observation: (line)
    The model's observation is the fresh-state line, carried as an oracle, provided the pooled model
    run (history, then probe, against the probe in the initial state) shows no fault and no
